@@ -519,6 +519,8 @@ val skipn : nat -> 'a1 list -> 'a1 list
 
 val seq : nat -> nat -> nat list
 
+val repeat : 'a1 -> nat -> 'a1 list
+
 val eqb0 : byte -> byte -> bool
 
 val to_N0 : byte -> n
@@ -1399,3 +1401,43 @@ val dec_fields : nat -> bytes -> ((bytes * bytes) list * bytes) option
 val is_name : bytes -> (bytes * bytes) -> bool
 
 val decode_msg : bytes -> message option
+
+type wstate =
+| WIdle
+| WLocked
+| WGot of nat
+| WRunning of nat
+| WDisc
+| WExited
+
+type mstate =
+| MSubmitting
+| MJoining of nat
+| MReturned
+
+type label =
+| LSend
+| LDropSender
+| LJoined
+| LReturned
+| LLock of nat
+| LUnlock of nat
+| LExit of nat
+| LJobStart of nat * nat
+| LJobEnd of nat
+
+type pstate = { p_workers : wstate list; p_queue : nat list; p_sent : 
+                nat; p_sender : bool; p_lock : nat option; p_main : mstate;
+                p_starts : nat list; p_done : nat list }
+
+val pool_init : nat -> pstate
+
+val set_nth : 'a1 list -> nat -> 'a1 -> 'a1 list
+
+val upd : pstate -> nat -> wstate -> pstate
+
+val step : pstate -> label -> pstate option
+
+val run : pstate -> label list -> pstate option
+
+val first_rejected : pstate -> label list -> nat -> nat option
